@@ -111,6 +111,9 @@ enum Frame {
     ForName,
     ForAfterName,
     ForWords,
+    /// after the name (and word list) of a for loop: only `do` may come, which is not a command
+    /// position - an ordinary alias name there is not substituted
+    ForDo,
     CaseSubject,
     CaseIn,
     CasePattern,
@@ -178,9 +181,10 @@ pub fn substitute(table: &Table, line: &str) -> Outcome {
                     cmd = false;
                 }
                 (";" | "\n", Some(Frame::ForWords | Frame::ForAfterName)) => {
-                    stack.pop();
-                    cmd = true;
+                    *stack.last_mut().unwrap() = Frame::ForDo;
+                    cmd = false;
                 }
+                ("\n", Some(Frame::ForDo)) => {}
                 ("\n", Some(Frame::CaseIn | Frame::CasePattern)) => {}
                 (")", _) => {
                     cmd = false;
@@ -234,10 +238,20 @@ pub fn substitute(table: &Table, line: &str) -> Outcome {
                         continue;
                     }
                     // `do` directly after the name
-                    stack.pop();
-                    cmd = true;
-                    start = true;
+                    *stack.last_mut().unwrap() = Frame::ForDo;
                     continue;
+                }
+                Some(Frame::ForDo) => {
+                    if literal && w == "do" {
+                        stack.pop();
+                        cmd = true;
+                        start = true;
+                        i += 1;
+                        continue;
+                    }
+                    // anything else is a syntax error unless an alias that applies in any
+                    // position (global, or after a blank-ended value) turns it into `do`
+                    after = Some(Box::new(|_c, _s| {}));
                 }
                 Some(Frame::ForWords) => {
                     after = Some(Box::new(|_c, _s| {}));
